@@ -460,7 +460,16 @@ impl BytecodeBuilder {
     /// Add a string constant to the pool (with deduplication)
     pub fn add_string(&mut self, s: JsString) -> Result<ConstantIndex, JsError> {
         if let Some(&idx) = self.string_map.get(&s) {
-            return Ok(idx);
+            // Variable names are looked up by identity at run time (VarKey compares the
+            // allocation, not the text): only the very same string shares a slot. A string
+            // with equal text from another allocation - one the compiler made itself next to
+            // an interned identifier - gets a slot of its own.
+            if let Some(Constant::String(existing)) = self.constants.get(idx as usize)
+                && existing.ptr_eq(&s)
+            {
+                return Ok(idx);
+            }
+            return self.add_constant(Constant::String(s));
         }
 
         let idx = self.add_constant(Constant::String(s.cheap_clone()))?;
